@@ -171,6 +171,30 @@ pub fn inflate(cenc: CencSpec, data: &[u8]) -> Result<Vec<u8>, String> {
     r.map(|_| out).map_err(|e| e.to_string())
 }
 
+/// independent content encoding (the transfer-encoded form of `data`)
+pub fn deflate(cenc: CencSpec, data: &[u8]) -> Vec<u8> {
+    use std::io::Write;
+    let lvl = flate2::Compression::default();
+    match cenc {
+        CencSpec::Null => data.to_vec(),
+        CencSpec::Zlib => {
+            let mut e = flate2::write::ZlibEncoder::new(vec![], lvl);
+            e.write_all(data).unwrap();
+            e.finish().unwrap()
+        }
+        CencSpec::Deflate => {
+            let mut e = flate2::write::DeflateEncoder::new(vec![], lvl);
+            e.write_all(data).unwrap();
+            e.finish().unwrap()
+        }
+        CencSpec::Gzip => {
+            let mut e = flate2::write::GzEncoder::new(vec![], lvl);
+            e.write_all(data).unwrap();
+            e.finish().unwrap()
+        }
+    }
+}
+
 #[derive(Clone, Copy, Debug, PartialEq, Eq, Hash)]
 pub enum CarouselSpec {
     DelayMs(u64),
